@@ -566,3 +566,66 @@ Example i64_add_spec_ex :
   i64_mul (INum 3037000499) (INum 3037000499) = INum 9223372030926249001 /\
   i64_div (INum (-7)) (INum 2) = INum (-3).
 Proof. repeat split; try (apply in_i64b_true; reflexivity). Qed.
+
+(** ** bundles (one statement per group; used by Props/C10.v and meant as the
+    hypotheses of the diagram-level lifting) *)
+
+Theorem i64_closed a b :
+  wf a -> wf b ->
+  wf (i64_add a b) /\ wf (i64_sub a b) /\ wf (i64_mul a b) /\ wf (i64_div a b) /\
+  wf (i64_min a b) /\ wf (i64_max a b).
+Proof.
+  intros Ha Hb. repeat split.
+  - now apply i64_add_wf. - now apply i64_sub_wf. - now apply i64_mul_wf.
+  - now apply i64_div_wf. - now apply i64_min_wf. - now apply i64_max_wf.
+Qed.
+
+Theorem i64_cmp_partial_order :
+  (forall a, i64_partial_cmp a a = Some Eq) /\
+  (forall a b, i64_partial_cmp a b = Some Eq <-> a = b) /\
+  (forall a b, i64_partial_cmp b a = option_map CompOpp (i64_partial_cmp a b)) /\
+  (forall a b c, i64_partial_cmp a b = Some Lt -> i64_partial_cmp b c = Some Lt ->
+                 i64_partial_cmp a c = Some Lt).
+Proof.
+  split; [exact i64_cmp_refl|]. split; [exact i64_cmp_eq_iff|].
+  split; [exact i64_cmp_antisym|exact i64_cmp_lt_trans].
+Qed.
+
+Theorem i64_shortcut_laws t x :
+  wf x ->
+  (i64_is_zero t = true -> i64_add t x = x /\ i64_add x t = x /\ i64_sub x t = x) /\
+  (i64_is_one t = true -> i64_mul t x = x /\ i64_mul x t = x /\ i64_div x t = x).
+Proof.
+  intros Hx. split; intros Ht; repeat split.
+  - now apply i64_add_zero_l. - now apply i64_add_zero_r. - now apply i64_sub_zero_r.
+  - now apply i64_mul_one_l. - now apply i64_mul_one_r. - now apply i64_div_one_r.
+Qed.
+
+Theorem i64_swap_laws a b :
+  i64_add a b = i64_add b a /\ i64_mul a b = i64_mul b a /\
+  i64_min a b = i64_min b a /\ i64_max a b = i64_max b a.
+Proof.
+  repeat split.
+  - apply i64_add_comm. - apply i64_mul_comm. - apply i64_min_comm. - apply i64_max_comm.
+Qed.
+
+Theorem i64_minmax_idem a : i64_min a a = a /\ i64_max a a = a.
+Proof. split. apply i64_min_idem. apply i64_max_idem. Qed.
+
+Theorem i64_minmax_bounds a b :
+  a <> INaN -> b <> INaN ->
+  (ext_le (i64_min a b) a /\ ext_le (i64_min a b) b /\ (i64_min a b = a \/ i64_min a b = b)) /\
+  (ext_le a (i64_max a b) /\ ext_le b (i64_max a b) /\ (i64_max a b = a \/ i64_max a b = b)).
+Proof. intros Ha Hb. split. now apply i64_min_le. now apply i64_max_ge. Qed.
+
+Theorem i64_div_clauses :
+  (forall x, i64_div (INum x) (INum 0) =
+             if x <? 0 then IMinusInf else if x =? 0 then INaN else IPlusInf) /\
+  i64_div (INum i64_MIN) (INum (-1)) = IPlusInf /\
+  (forall x, i64_div (INum x) IPlusInf = INum 0 /\ i64_div (INum x) IMinusInf = INum 0) /\
+  (forall y, i64_div IPlusInf (INum y) = (if y <? 0 then IMinusInf else IPlusInf) /\
+             i64_div IMinusInf (INum y) = (if y <? 0 then IPlusInf else IMinusInf)).
+Proof.
+  split; [exact i64_div_zero|]. split; [exact i64_div_min_m1|].
+  split; [exact i64_div_fin_inf|exact i64_div_inf_fin].
+Qed.
